@@ -171,11 +171,13 @@ class Runner:
                     and len(self.c.samples) < 3 else None)
 
     # ---- compare machine
-    def obj(self, o, ui):
-        """a real key object for KeyObj(type, mat, kind); ui picks the universe"""
+    def obj(self, o, ui, force_k1=None):
+        """a real key object for KeyObj(type, mat, kind); ui picks the universe (force_k1: this root is k1)"""
         pool, rnd = self.pool, self.rnd
         t = o["type"]
-        if t in ("rsa", "ecdsa256", "ed25519"):      # k1 must be the root that has a bundled certificate
+        if force_k1 is not None and force_k1.type == t:
+            k1, k2 = force_k1, pool.universes[t][0][1]
+        elif t in ("rsa", "ecdsa256", "ed25519"):      # k1 must be the root that has a bundled certificate
             k1 = pool.bundled[t][0]
             others = [r for r in pool.bundled[t] if r.pub_id != k1.pub_id]
             k2 = others[ui % len(others)] if others else pool.universes[t][0][1]
@@ -191,7 +193,10 @@ class Runner:
         if kind == "public":
             ways = pool.ways(root, "public_bytes")
             i = rnd.choice([i for i, w in enumerate(ways) if w != "cert_blob"])
-            return pool.obtain(root, "public_bytes", i)
+            try:
+                return pool.obtain(root, "public_bytes", i)
+            except Machinery as e:       # the public encoding of an existing key does not parse: an observation
+                return None, "%s/public_bytes/%s: %s" % (root.origin, ways[i], e)
         if kind in ("loaded_cert", "public_cert", "loaded_cert_b", "public_cert_b"):
             which = "B" if kind.endswith("_b") else "A"
             ck = (kind, fileprov if kind.startswith("loaded") else "-")
@@ -207,6 +212,10 @@ class Runner:
                         line, blob = K.synth_cert(pool.base(root), 1 if which == "A" else 2, "cert-" + which)
                         root.cache[ckc] = (line, blob, "synthesised certificate " + which)
                 src, blob, what = root.cache[ckc]
+                try:
+                    cls(data=blob)
+                except Exception as e:       # certificate around this key's public encoding does not parse
+                    return None, "%s/%s: %s: %s" % (root.origin, what, type(e).__name__, e)
                 if kind.startswith("loaded"):
                     k = cls(filename=root.path, password=root.password) if root.path else \
                         pool._build(root, fileprov, "filename")
@@ -221,22 +230,30 @@ class Runner:
             return root.cache[ck]
         raise Machinery("kind " + kind)
 
-    def cmp_case(self, a, b):
+    def cmp_case(self, a, b, force_k1=None):
         ui = self.rnd.randrange(6)
-        (A, ahow), (B, bhow) = self.obj(a, ui), self.obj(b, ui)
+        (A, ahow), (B, bhow) = self.obj(a, ui, force_k1), self.obj(b, ui, force_k1)
         err = "-"
-        eq = eq_rev = heq = fpeq = beq = False
+        eq = eq_rev = heq = fpeq = beq = rt = False
         ne = True
         try:
+            if A is None or B is None:
+                raise ValueError("public encoding does not parse back")
+            # "a key's public encoding parses back into an equal key with the same fingerprint", for both operands
+            rt = True
+            for X in (A, B):
+                Y = type(X)(data=X.asbytes())
+                rt = rt and (Y == X) is True and Y.fingerprint == X.fingerprint and Y.asbytes() == X.asbytes() \
+                    and hash(Y) == hash(X)
             eq, eq_rev, ne = (A == B) is True, (B == A) is True, (A != B) is True
             heq = hash(A) == hash(B)
             fpeq = A.fingerprint == B.fingerprint and A.get_fingerprint() == B.get_fingerprint()
             beq = A.asbytes() == B.asbytes() and bytes(A) == bytes(B) and A.get_base64() == B.get_base64()
         except Exception as e:
             err = type(e).__name__
-        rec = dict(kind="cmp", a=a, b=b, eq=eq, eq_rev=eq_rev, ne=ne, heq=heq, fpeq=fpeq, beq=beq, err=err)
+        rec = dict(kind="cmp", a=a, b=b, eq=eq, eq_rev=eq_rev, ne=ne, heq=heq, fpeq=fpeq, beq=beq, rt=rt, err=err)
         self.batch.append(rec)
-        info = {"case": rec, "a": ahow, "b": bhow}
+        info = {"case": rec, "a": ahow, "b": bhow, "a_public": A.asbytes().hex() if A is not None else None}
         self.info.append(info)
         key = ("cmp", a["type"], a["mat"], a["kind"], b["type"], b["mat"], b["kind"])
         self.executed.add(key)
@@ -310,6 +327,15 @@ def run(c):
     for _ in range(reps_c):
         for _, a, b, _eq in cmps:
             run_.cmp_case(a, b)
+    # ECDSA keys with short coordinates (fixed scalars): every same-key pair of kinds, every run
+    if not replay:
+        kinds = sorted({a["kind"] for _, a, _b, _e in cmps if a["type"] == "ecdsa256" and a["mat"] == "k1"})
+        for t, roots in sorted(run_.pool.short_roots.items()):
+            for root in roots:
+                for ka in kinds:
+                    for kb in kinds:
+                        run_.cmp_case({"type": t, "mat": "k1", "kind": ka}, {"type": t, "mat": "k1", "kind": kb},
+                                      force_k1=root)
     want = {("file",) + f for f in files} | {("cmp", a["type"], a["mat"], a["kind"], b["type"], b["mat"], b["kind"])
                                             for _, a, b, _ in cmps}
     if want - run_.executed:
